@@ -7,13 +7,6 @@ and DeliverTx (`deliverTx`) of the model in Model/Oracle.lean.
 -/
 namespace ExoVerif.Oracle
 
-/-- The property's admission clause, stated outright: admitted ⇒ size within the limit, public key
-of the signer, *valid signature*, consecutive nonces within the limit. -/
-def C13_full : Prop :=
-  ∀ (s : State) (tx : Tx) (st : Store), anteHandle s tx = .ok st →
-    tx.size ≤ 1000 ∧ tx.pubkeyMatches = true ∧ tx.sigValid = true ∧
-    anteNonces s.store.params.maxNonce s.store tx.msgs = some st
-
 def witnessParams : Params :=
   { maxNonce := 3, thA := 2, thB := 3, maxDetID := 5, maxSizePrices := 100, sources := [], rules := [],
     tokenDecimals := [], feeders := [] }
@@ -28,42 +21,43 @@ def forgedTx : Tx :=
   { size := 300, pubkeyMatches := true, sigValid := false,
     msgs := [{ creator := 0, feederID := 1, basedBlock := 2, nonce := 1, prices := [] }] }
 
-/-- The code as it is admits a transaction whose signature is invalid: the oracle branch of
-SigVerificationDecorator computes `VerifySignature` and drops the result (F-10a). -/
-theorem C13_full_fails : ¬ C13_full := by
-  intro h
-  have h1 : anteHandle witnessState forgedTx =
-      .ok { witnessState.store with nonces := [((0, 1), 1)] } := by
-    simp [anteHandle, anteNonces, Store.checkNonce, witnessState, forgedTx, witnessParams, alookup, aset]
-  have := (h witnessState forgedTx _ h1).2.2.1
-  simp [forgedTx] at this
-
-/-- What does hold: admitted ⇔ size ≤ 1000 ∧ the attached public key is the signer's ∧ every
-message carries its sender's next consecutive nonce within MaxNonce (in order). -/
-theorem C13_admitted_iff_partial (s : State) (tx : Tx) (st : Store) :
+/-- The property's admission clause, stated outright and in both directions: a create-price
+transaction is admitted ⇔ it respects the size limit ∧ carries the signer's public key ∧ is
+correctly signed by that key ∧ every message carries its sender's next consecutive nonce within
+MaxNonce (in order; a nonce entry exists only for validators of an open round). -/
+theorem C13_admitted_iff (s : State) (tx : Tx) (st : Store) :
     anteHandle s tx = .ok st ↔
-      (tx.size ≤ 1000 ∧ tx.pubkeyMatches = true ∧
+      (tx.size ≤ 1000 ∧ tx.pubkeyMatches = true ∧ tx.sigValid = true ∧
         anteNonces s.store.params.maxNonce s.store tx.msgs = some st) := by
   unfold anteHandle
   by_cases h1 : tx.size > 1000
   · simp [h1]; intro h; omega
   · by_cases h2 : tx.pubkeyMatches = true
-    · cases h3 : anteNonces s.store.params.maxNonce s.store tx.msgs with
-      | none => simp [h1, h2, h3]
-      | some st' =>
-        simp only [h1, h2, h3, if_false, Bool.not_true, Bool.false_eq_true]
-        constructor
-        · intro h; cases h; exact ⟨by omega, trivial, rfl⟩
-        · intro h; cases h.2.2; rfl
+    · by_cases h4 : tx.sigValid = true
+      · cases h3 : anteNonces s.store.params.maxNonce s.store tx.msgs with
+        | none => simp [h1, h2, h3, h4]
+        | some st' =>
+          simp only [h1, h2, h3, h4, if_false, Bool.not_true, Bool.false_eq_true]
+          constructor
+          · intro h; cases h; exact ⟨by omega, trivial, trivial, rfl⟩
+          · intro h; cases h.2.2.2; rfl
+      · simp [h1, h2, h4]
     · simp [h1, h2]
 
-/-- With the signature conjunct added as a hypothesis the full clause holds. -/
-theorem C13_admitted_partial (s : State) (tx : Tx) (st : Store) (hsig : tx.sigValid = true)
-    (h : anteHandle s tx = .ok st) :
+/-- `C13_full`: admitted ⇒ every conjunct of the property's admission clause, including
+"correctly signed" (holds since the repair of F-10a; `Props/C13Tie.lean` ties the signature
+step to the source). -/
+def C13_full : Prop :=
+  ∀ (s : State) (tx : Tx) (st : Store), anteHandle s tx = .ok st →
     tx.size ≤ 1000 ∧ tx.pubkeyMatches = true ∧ tx.sigValid = true ∧
-    anteNonces s.store.params.maxNonce s.store tx.msgs = some st := by
-  have := (C13_admitted_iff_partial s tx st).mp h
-  exact ⟨this.1, this.2.1, hsig, this.2.2⟩
+    anteNonces s.store.params.maxNonce s.store tx.msgs = some st
+
+theorem C13_full_holds : C13_full := fun s tx st h => (C13_admitted_iff s tx st).mp h
+
+/-- Regression for F-10a: the forged submission (validator's public key, invalid signature, next
+nonce) is refused by the ante chain. -/
+theorem C13_forged_signature_rejected : anteHandle witnessState forgedTx = .error "sig" := by
+  simp [anteHandle, witnessState, forgedTx]
 
 /-- The nonce rule: accepted ⇒ the sender has an entry for that feeder (only validators of an open
 round have one), the nonce is exactly previous+1, it is within MaxNonce, and only that entry moves. -/
